@@ -477,4 +477,71 @@ theorem param_0n1 (b : Nat) : param [[none], [some b]] 1 = some b := rfl
 theorem param_00 : param [[none]] 0 = none := rfl
 theorem param_01 : param [[none]] 1 = none := rfl
 
+/-! ### Small list facts, and the shapes of `scrollrect`'s output -/
+
+theorem getD_map_toNat (bs : List UInt8) (i : Nat) : (bs.map UInt8.toNat).getD i 32 = (bs.getD i 32).toNat := by
+  induction bs generalizing i with
+  | nil => rfl
+  | cons b rest ih => cases i with
+    | zero => rfl
+    | succ i => simpa using ih i
+
+theorem getD_replicate_space (n i : Nat) : (List.replicate n (0x20 : UInt8)).getD i 32 = 32 := by
+  simp only [List.getD_eq_getElem?_getD, List.getElem?_replicate]
+  split <;> rfl
+
+/-- The four shapes of a successful scroll's output. -/
+theorem scrollrect_ichdch_margin (fx : Fixes) (caps : Caps) (tc : Int) (rect : Rect) (r : Int) (hr0 : r ≠ 0)
+    (hs : caps.slrm = true ∧ rect.lines = 1) (hlt : rect.right < tc) :
+    scrollrect fx caps tc rect 0 r =
+      (true, csi ([0x3b] ++ showInt rect.right ++ [0x73]) ++ (scrollLine rect.top rect.left r ++ csi [0x73])) := by
+  unfold scrollrect
+  rw [if_neg (by intro h; exact hr0 h.2)]
+  simp only []
+  rw [if_pos ⟨Or.inl hs, trivial⟩, if_pos hlt, if_pos hlt]
+  have hl : rect.lines.toNat = 1 := by omega
+  simp [hl]
+
+theorem scrollrect_ichdch_full (fx : Fixes) (caps : Caps) (tc : Int) (rect : Rect) (r : Int) (hr0 : r ≠ 0)
+    (hre : rect.right = tc) :
+    scrollrect fx caps tc rect 0 r =
+      (true, (List.range rect.lines.toNat).flatMap fun (i : Nat) => scrollLine (rect.top + (i : Int)) rect.left r) := by
+  unfold scrollrect
+  rw [if_neg (by intro h; exact hr0 h.2)]
+  simp only []
+  rw [if_pos ⟨Or.inr hre, trivial⟩, if_neg (by omega), if_neg (by omega)]
+  simp
+
+theorem scrollrect_margins_lr (fx : Fixes) (caps : Caps) (tc : Int) (rect : Rect) (d r : Int) (h0 : ¬ (d = 0 ∧ r = 0))
+    (hB1 : ¬ (((caps.slrm = true ∧ rect.lines = 1) ∨ rect.right = tc) ∧ d = 0))
+    (hB2 : caps.slrm = true ∨ (rect.left = 0 ∧ rect.cols = tc ∧ r = 0))
+    (hgd : ¬ (fx.scrollGuard = true ∧ (rect.lines < 2 ∨ ((rect.left > 0 ∨ rect.right < tc) ∧ rect.cols < 2))))
+    (hneed : rect.left > 0 ∨ rect.right < tc) :
+    scrollrect fx caps tc rect d r =
+      (true, csi (showInt (rect.top + 1) ++ [0x3b] ++ showInt rect.bottom ++ [0x72]) ++
+        (csi (showInt (rect.left + 1) ++ [0x3b] ++ showInt rect.right ++ [0x73]) ++
+          ((gotoAbs rect.top rect.left ++ signedSeq d [] 0x4d 0x4c ++ signedSeq r [0x27] 0x7e 0x7d) ++
+            (csi [0x72] ++ csi [0x73])))) := by
+  unfold scrollrect
+  rw [if_neg h0]
+  simp only []
+  rw [if_neg hB1, if_pos hB2, if_neg hgd, if_pos hneed, if_pos hneed]
+  simp [List.append_assoc]
+
+theorem scrollrect_margins_tb (fx : Fixes) (caps : Caps) (tc : Int) (rect : Rect) (d r : Int) (h0 : ¬ (d = 0 ∧ r = 0))
+    (hB1 : ¬ (((caps.slrm = true ∧ rect.lines = 1) ∨ rect.right = tc) ∧ d = 0))
+    (hB2 : caps.slrm = true ∨ (rect.left = 0 ∧ rect.cols = tc ∧ r = 0))
+    (hgd : ¬ (fx.scrollGuard = true ∧ (rect.lines < 2 ∨ ((rect.left > 0 ∨ rect.right < tc) ∧ rect.cols < 2))))
+    (hneed : ¬ (rect.left > 0 ∨ rect.right < tc)) :
+    scrollrect fx caps tc rect d r =
+      (true, csi (showInt (rect.top + 1) ++ [0x3b] ++ showInt rect.bottom ++ [0x72]) ++
+          ((gotoAbs rect.top rect.left ++ signedSeq d [] 0x4d 0x4c ++ signedSeq r [0x27] 0x7e 0x7d) ++
+            csi [0x72])) := by
+  unfold scrollrect
+  rw [if_neg h0]
+  simp only []
+  rw [if_neg hB1, if_pos hB2, if_neg hgd, if_neg hneed, if_neg hneed]
+  simp [List.append_assoc]
+
+
 end Tickit.XTermDrv
